@@ -520,7 +520,10 @@ func (r *run) startChecks(permOK bool, cfg *Cfg) {
 		r.viol("C06", "not-at-a-wait-point", fmt.Sprintf("after Start() the hand is at %q", gs.Status.CurrentEvent), 0)
 	}
 	if gs.Status.CurrentDeckPosition != 0 {
-		r.viol("C14", "cards-dealt-at-start", fmt.Sprintf("deck position %d right after Start()", gs.Status.CurrentDeckPosition), 0)
+		// the harness pins the deck right after Start(); if cards are dealt
+		// by then the seam is gone - a harness problem, not a violation
+		r.res.Fault = fmt.Sprintf("cannot pin the deck: deck position %d right after Start()", gs.Status.CurrentDeckPosition)
+		r.dead = true
 	}
 }
 
